@@ -149,6 +149,9 @@ func manifestVariant(rng *rand.Rand, fake []byte, k int) ([]byte, string, bool) 
 	}
 	kmEnd := bpmOff
 	bpmEnd := room(bpmOff + bpmLen)
+	if bpmEnd > bpmOff+0x1000 {
+		bpmEnd = bpmOff + 0x1000 // stay well inside the raw file the manifests live in
+	}
 
 	se := &bpm.SE[0]
 	se.DigestList.List = digestListShape(rng, k)
@@ -263,7 +266,7 @@ func seLayout(bpm []byte) (first uint64, entries []digestEntry, ok bool) {
 		return 0, nil, false
 	}
 	p += 4 + int(binary.LittleEndian.Uint16(bpm[p+2:])) // PostIbbHash
-	p += 4                                               // IbbEntryPoint
+	p += 4                                              // IbbEntryPoint
 	if p+4 > len(bpm) {
 		return 0, nil, false
 	}
